@@ -70,7 +70,22 @@ fn roots(tier: Tier, w: &World, s0: &Store) -> Vec<(String, HState)> {
             ok &= act::apply(w, &mut s, &a).committed;
         }
         if ok {
-            v.push(("RU".to_string(), HState { s, clock_devs: 0, price_devs: 0, closes: vec![0; nb], forged: false }));
+            v.push(("RU".to_string(), HState { s: s.clone(), clock_devs: 0, price_devs: 0, closes: vec![0; nb], forged: false }));
+            // RU0 / RU1: a year later (the vault also holds a year of uncollected fees) the limit admin winds the
+            // market down: borrow limit 0 (resp. 1) on a bank that still has its debt outstanding
+            let mut ok = true;
+            for a in [Action::Advance { dt: 31_536_000 }, Action::Accrue { b: 0 }, Action::Accrue { b: 1 }] {
+                ok &= act::apply(w, &mut s, &a).committed;
+            }
+            if ok {
+                for lim in [0u64, 1] {
+                    let mut t = s.clone();
+                    for b in 0..nb {
+                        set_limits(w, &mut t, b, None, Some(lim));
+                    }
+                    v.push((format!("RU+wound_down{lim}"), HState { s: t, clock_devs: 0, price_devs: 0, closes: vec![0; nb], forged: false }));
+                }
+            }
         }
     }
     v
